@@ -246,11 +246,14 @@ class MTVRPEnv(RL4COEnvBase):
             )
             > 0
         )
+        # demands are multiples of 1/capacity summed in float32: an exactly full vehicle may come out as 1 + ulp
         exceeds_cap_linehaul = (
-            td["demand_linehaul"] + td["used_capacity_linehaul"] > td["vehicle_capacity"]
+            td["demand_linehaul"] + td["used_capacity_linehaul"]
+            > td["vehicle_capacity"] + 1e-5
         )
         exceeds_cap_backhaul = (
-            td["demand_backhaul"] + td["used_capacity_backhaul"] > td["vehicle_capacity"]
+            td["demand_backhaul"] + td["used_capacity_backhaul"]
+            > td["vehicle_capacity"] + 1e-5
         )
 
         meets_demand_constraint = (
@@ -377,7 +380,7 @@ class MTVRPEnv(RL4COEnvBase):
                 used_cap = used_cap * (actions[:, ii] != 0)
                 used_cap += demand[:, ii]
                 assert (
-                    used_cap <= td["vehicle_capacity"]
+                    used_cap <= td["vehicle_capacity"] + 1e-5
                 ).all(), "Used more than capacity for {}: {}".format(feature, used_cap)
 
         _check_c1("demand_linehaul")
